@@ -5,6 +5,7 @@ import Tetro.Model.Timer
 import Tetro.Model.Lcd
 import Tetro.Model.Oam
 import Tetro.Model.Cart
+import Tetro.Spec.BusSpec
 /-
 The MACHINE BUS: model of gameboy/memory/mapper.go (`Mapper.Read`, `Mapper.Write`,
 `Mapper.EndMachineCycle`), gameboy/interrupts/interrupts.go (IF / IE), the plain registers of
@@ -299,10 +300,7 @@ def button (m : Machine) (b : Nat) (pressed : Bool) : Machine :=
 
 /-! ### histories of bus accesses -/
 
-inductive BusOp where
-  | rd (a : Nat)
-  | wr (a v : Nat)
-deriving DecidableEq, Repr
+open Tetro.Spec.BusSpec (BusOp)
 
 /-- run a history; the values of the reads in order.  `none` as soon as one access panics -/
 def runOps (ra wa : List Arm) (m : Machine) : List BusOp → Option (List Nat × Machine)
